@@ -70,6 +70,14 @@ CHECKS = {
   text='Hypothesis-generated grid nensembles 1..8 x nprocesses 1..8 x noise mode x noise level x cap for ensemble_sift and complete_ensemble_sift with a seeded RNG; from the guarded trace of every member (index, pid, the noise actually added): members pairwise distinct and uncorrelated, output equal to the member mean recomputed in the harness from the traced noise, zero noise equal to the classic sift, every complete-ensemble stage checked the same way.',
   note='Job-to-worker assignments are those the pool produces (sampled, reported in the evidence); classic sift is the trusted building block.',
   technique='property-based testing with a trace-based oracle (noise digests, recomputed member means); schedule sampling'),
+ 'C19': dict(
+  text='A catalogue of the public numeric entry points driven with generated signals: equivalent layouts must give identical results, multi-column / row-vector / 3-D input to the single-signal sift routines and mismatched lengths to multi-array routines must raise, inputs (also read-only ones) must be byte-identical afterwards, caller-owned option dictionaries deepcopy-equal, and a repeated call identical.',
+  note='amplitude_normalise and hilberthuang_1d document 2-D input only; any exception type counts as rejection.',
+  technique='property-based testing with metamorphic (layout) relations and before/after state comparison'),
+ 'C20': dict(
+  text='Exhaustive enumeration of every call history of length <= 3 (quick) / <= 4 (thorough) over a 19-action alphabet from both the never-set-up and the set-up state, random histories to length 12 with log files and the other sift variants, and random histories replayed in fresh interpreters; a model of the console level is compared with get_level() after every step, outputs with a logging-free baseline, and console traffic during each call with the effective level.',
+  note='The never-set-up state is re-created in-process (validated by the fresh-interpreter clause); console output goes to a counting stream.',
+  technique='model-based testing of call histories: exhaustive to depth 3/4, random beyond'),
 }
 
 NOT_APPLICABLE = [{'property_id': p, 'reason': 'check not built yet in this round (planned with the same technique, see DESIGN.md section 2)'}
